@@ -83,6 +83,37 @@ func constEval(info *types.Info, e ast.Expr, env map[types.Object]constant.Value
 		}
 		return constant.MakeString(str[lo:hi]), true
 	case *ast.IndexExpr:
+		// table[k] with table a package level map literal with constant keys and values that is never assigned
+		if id, ok := ast.Unparen(t.X).(*ast.Ident); ok {
+			if v, ok := info.ObjectOf(id).(*types.Var); ok && v.Pkg() != nil && v.Parent() == v.Pkg().Scope() {
+				if lit, ok := singleDefExpr[v]; ok {
+					if cl, ok := ast.Unparen(lit).(*ast.CompositeLit); ok {
+						if _, isMap := info.TypeOf(cl).Underlying().(*types.Map); isMap {
+							if kv, ok := constEval(info, t.Index, env); ok {
+								for _, el := range cl.Elts {
+									pair, ok := el.(*ast.KeyValueExpr)
+									if !ok {
+										return nil, false
+									}
+									ktv, vtv := info.Types[pair.Key], info.Types[pair.Value]
+									if ktv.Value == nil || vtv.Value == nil {
+										return nil, false
+									}
+									if constant.Compare(constant.ToInt(ktv.Value), token.EQL, constant.ToInt(kv)) {
+										return vtv.Value, true
+									}
+								}
+								// a missing key yields the zero value
+								if b, ok := info.TypeOf(t).Underlying().(*types.Basic); ok && b.Info()&types.IsString != 0 {
+									return constant.MakeString(""), true
+								}
+							}
+							return nil, false
+						}
+					}
+				}
+			}
+		}
 		// []rune(s)[i]
 		if conv, ok := ast.Unparen(t.X).(*ast.CallExpr); ok && len(conv.Args) == 1 {
 			if tv, ok := info.Types[conv.Fun]; ok && tv.IsType() {
@@ -222,6 +253,81 @@ func constEval(info *types.Info, e ast.Expr, env map[types.Object]constant.Value
 					return constant.MakeInt64(int64(idx)), true
 				}
 			}
+		}
+		// a private helper that searches a constant table: for k, v := range table { if v == param { return f(k) } }; return d
+		for _, p := range loadedPkgs {
+			if p.Types != cal.Pkg() || p.TypesInfo != info || len(args) != 1 {
+				continue
+			}
+			fd := findFuncDecl(p, cal)
+			if fd == nil || fd.Body == nil || len(fd.Body.List) != 2 || fd.Type.Params.NumFields() != 1 || len(fd.Type.Params.List[0].Names) != 1 {
+				continue
+			}
+			rs, ok1 := fd.Body.List[0].(*ast.RangeStmt)
+			last, ok2 := fd.Body.List[1].(*ast.ReturnStmt)
+			if !ok1 || !ok2 || len(last.Results) != 1 || len(rs.Body.List) != 1 || rs.Key == nil || rs.Value == nil {
+				continue
+			}
+			ifs, ok := rs.Body.List[0].(*ast.IfStmt)
+			if !ok || ifs.Init != nil || ifs.Else != nil || len(ifs.Body.List) != 1 {
+				continue
+			}
+			ret, ok := ifs.Body.List[0].(*ast.ReturnStmt)
+			if !ok || len(ret.Results) != 1 {
+				continue
+			}
+			kid, okK := rs.Key.(*ast.Ident)
+			vid, okV := rs.Value.(*ast.Ident)
+			be, okB := ast.Unparen(ifs.Cond).(*ast.BinaryExpr)
+			if !okK || !okV || !okB || be.Op != token.EQL {
+				continue
+			}
+			param := info.Defs[fd.Type.Params.List[0].Names[0]]
+			xa, okA := ast.Unparen(be.X).(*ast.Ident)
+			ya, okY := ast.Unparen(be.Y).(*ast.Ident)
+			if !okA || !okY || !(info.ObjectOf(xa) == info.ObjectOf(vid) && info.ObjectOf(ya) == param || info.ObjectOf(ya) == info.ObjectOf(vid) && info.ObjectOf(xa) == param) {
+				continue
+			}
+			// the table: an array or slice literal of constants, or []rune("...")
+			var elems []constant.Value
+			tblExpr := ast.Unparen(rs.X)
+			if tid, ok := tblExpr.(*ast.Ident); ok {
+				if tv, ok := info.ObjectOf(tid).(*types.Var); ok {
+					if lit, has := singleDefExpr[tv]; has {
+						tblExpr = ast.Unparen(lit)
+					}
+				}
+			}
+			if cl, ok := tblExpr.(*ast.CompositeLit); ok {
+				okAll := true
+				for _, el := range cl.Elts {
+					if _, isKV := el.(*ast.KeyValueExpr); isKV {
+						okAll = false
+						break
+					}
+					tv := info.Types[el]
+					if tv.Value == nil {
+						okAll = false
+						break
+					}
+					elems = append(elems, tv.Value)
+				}
+				if !okAll {
+					continue
+				}
+			} else if sv, ok := constEval(info, tblExpr, nil); ok && sv.Kind() == constant.String {
+				for _, r := range constant.StringVal(sv) {
+					elems = append(elems, constant.MakeInt64(int64(r)))
+				}
+			} else {
+				continue
+			}
+			for i, ev := range elems {
+				if constant.Compare(constant.ToInt(ev), token.EQL, constant.ToInt(args[0])) {
+					return constEval(info, ret.Results[0], map[types.Object]constant.Value{info.ObjectOf(kid): constant.MakeInt64(int64(i)), info.ObjectOf(vid): ev, param: args[0]})
+				}
+			}
+			return constEval(info, last.Results[0], map[types.Object]constant.Value{param: args[0]})
 		}
 		// a private helper with a single return of one expression
 		for _, p := range loadedPkgs {
